@@ -9,9 +9,11 @@
 //@   modifies nothing
 //@   ensures result1 ==> result0 == smVal(m, key) && result0 != nil
 
+//@ ghost field Map.puts int
 //@ func (*Map) Store
 //@   trusted
-//@   modifies nothing
+//@   modifies Map.puts of m
+//@   ensures m.puts == old(m.puts) + 1
 
 //@ func (*Map) Delete
 //@   trusted
